@@ -2,9 +2,11 @@ SPECIFICATION Spec
 CONSTANTS
   MaxNf = 2
   Roles <- RolesAll
-  PlaceholderTypedAsCookie = TRUE
+  PlaceholderTypedAsCookie = FALSE
   UidChecked = TRUE
   AdWhole = FALSE
+  StopAtAuth = TRUE
+  CtLenExact = TRUE
   LenChoices <- LenChoicesGen
   TruncMax = 2
 INVARIANTS Sound
